@@ -54,7 +54,7 @@ inline ProdMenus prod_menus(bool thorough) {
         /*scheme*/ {"http:", "HTTPS:", "file:", "a:", ""},
         /*slashes*/ {"//", "/", "\\\\", ""},
         /*userinfo*/ {"", "u:p@", "@"},
-        /*host*/ {"example.com", "EXAMPLE.com", "1.2.3.4", "0x7f.1", "a.0XAB", "[1::2]", EACUTE ".com", "a%2Eb", h16 + ".com", h17, ""},
+        /*host*/ {"example.com", "EXAMPLE.com", "1.2.3.4", "0x7f.1", "a.0XAB", "[1::2]", EACUTE ".com", "a%2Eb", "LOCALHOST", "loc%61lhost", h16 + ".com", h17, ""},
         /*port*/ {"", ":80", ":443", ":008", ":1000"},
         /*path*/ {"", "/", "/a/../b/./c", "/%2e%2E/x", "\\x\\y", "/" + h16 + "/" + h17},
         /*query*/ {"", "?", "?a='" EACUTE " b"},
@@ -68,7 +68,7 @@ inline ProdMenus prod_menus(bool thorough) {
         /*userinfo*/ {"", "u:p@", "@", "u@", ":p@", "u:p:q@x@", EACUTE ":" EACUTE "@"},
         /*host*/ {"example.com", "EXAMPLE.com", "1.2.3.4", "0x7f.1", "1.2.3.4.", "256.1.1.1", "09", "0x", "1.2.3", "[1::2]",
                   "[::1.2.3.4]", "[1:2:3:4:5:6:7:8]", "[1::2", EACUTE ".com", "xn--nxasmq6b", "xn--", "a%2Eb", "a b", "a^b", "a.b.",
-                  h15, h16, h17, h31, h32, h33 + ".x", h48, "a.0XAB", "srv.0xFf.", "0X7F.1", ""},
+                  h15, h16, h17, h31, h32, h33 + ".x", h48, "a.0XAB", "srv.0xFf.", "0X7F.1", "LOCALHOST", "loc%61lhost", "localhost", ""},
         /*port*/ {"", ":80", ":443", ":21", ":008", ":0", ":65535", ":65536", ":", ":8a", ":9", ":10", ":99", ":100", ":999", ":1000", ":9999", ":10000"},
         /*path*/ {"", "/", "/a/../b/./c", "/%2e%2E/x", "\\x\\y", "/" + h16 + "/" + h17, "/C:/x", "/C|/x", "/..", "/a/..", "//", "/.//x",
                   "/a b", "/" EACUTE, "/%zz", "/" + h31 + "?", "x", "../x", "./", "/a;b=c"},
@@ -151,8 +151,8 @@ inline std::vector<OpVal> op_menu(bool thorough, bool with_clear) {
     add(SET_PROTOCOL, {"https", "HTTPS", "file", "b", "ws:", "1x"});
     add(SET_USERNAME, {"", "u", "a:@b"});
     add(SET_PASSWORD, {"", "p"});
-    add(SET_HOST, {"example.org", "h:99", "1.2.3.4", "[::2]", "", "a b", "x/y", "0x10", EACUTE ".x"});
-    add(SET_HOSTNAME, {"h2", "h:99", "", "2.3.4.5", "[1::]"});
+    add(SET_HOST, {"example.org", "h:99", "1.2.3.4", "1.2.3.4.5", "[::2]", "", "a b", "x/y", "0x10", EACUTE ".x"});
+    add(SET_HOSTNAME, {"h2", "h:99", "", "2.3.4.5", "256.256.256.256", "[1::]"});
     add(SET_PORT, {"", "80", "443", "8080", "1000", "99999", "1x"});
     add(SET_PATHNAME, {"", "/", "//x", "/a/../b", "c d", "/C|/z", "?#"});
     add(SET_SEARCH, {"", "?", "a=b c", "\n?y"});
@@ -163,7 +163,7 @@ inline std::vector<OpVal> op_menu(bool thorough, bool with_clear) {
     add(SET_USERNAME, {"", "u", "a:@b", EACUTE, " /"});
     add(SET_PASSWORD, {"", "p", ":@/", EACUTE, "%41"});
     add(SET_HOST, {"example.org", "h:99", "h:80", "h:", "1.2.3.4", "1.2.3.4:5", "[::2]", "[::2]:3", "", "a b", "x/y", "x\\y", "x?y",
-                   "x#y", "0x10", "256.0.0.1", EACUTE ".x", "h\t2", "u@h", "xn--a"});
+                   "x#y", "0x10", "256.0.0.1", "1.2.3.4.5", "foo.09", "LOCALHOST", EACUTE ".x", "h\t2", "u@h", "xn--a"});
     add(SET_HOSTNAME, {"h2", "h:99", "", "2.3.4.5", "[1::]", "a b", "x/y", "x\\y", "0x10", EACUTE ".y", "h\n3", "u@h", ":1", "1.2.3.4.",
                        "[::1", "a%41", "A", "x?y", "x#y", "4294967296"});
     add(SET_PORT, {"", "80", "443", "21", "8080", "0", "00090", "65535", "65536", "99999", "1x", "x", "8\t1", "9", "10", "100", "1000", "10000"});
